@@ -136,6 +136,22 @@ def third_party_isolation_rules(fb, ctx):
             then_ok = bool(find_all(e["then"], lambda z: hirq.is_lid(z, p_token_symbols)))
             else_ok = bool(find_all(e["else"], lambda z: z.get("k") == "field" and z.get("name") == "symbols"))
             ok = cond_ok and then_ok and else_ok
+            if not ok:
+                # the same choice in another spelling (De Morgan, swapped branches, `matches!`): interpret the `if` at the four points
+                # (block 0 / another block) x (no external key / an external key)
+                import absint
+                try:
+                    got_ = {}
+                    for i_ in (0, 1):
+                        for ek_, ekv_ in (("none", absint.C("None")), ("some", absint.C("Some", absint.sym("key")))):
+                            env_ = {x_: absint.sym("block") for x_ in hirq.param_ids(lh, 0)}
+                            env_.update({x_: i_ for x_ in hirq.param_ids(lh, 1)})
+                            env_.update({x_: absint.sym("token_symbols") for x_ in p_token_symbols})
+                            r_ = absint.Interp(fields={("block", "external_key"): ekv_}).run(e, env_)
+                            got_[(i_, ek_)] = "token" if r_ == absint.sym("token_symbols") else ("block" if r_ == absint.sym("block.symbols") else absint.show(r_))
+                    ok = got_ == {(0, "none"): "token", (0, "some"): "token", (1, "none"): "token", (1, "some"): "block"}
+                except absint.Unknown:
+                    ok = False
     # .. and that choice is the only way the token's table is read: a direct use of the `token_symbols` parameter anywhere else
     # resolves part of a third-party block (its scopes, a rule, a check) against the carrier token's table
     if lets:
